@@ -209,6 +209,26 @@ func main() {
 			os.Exit(rc)
 		}
 		os.Exit(runMutants(*repo, only, true))
+	case "baseline":
+		// prints the names of all source functions of the analysed module: the functions the rules were written
+		// against (checker/baseline_funcs.txt, embedded). A function that is not in this list is a NEW helper; where a
+		// rule scans "f and its closures" (eachInstrDeep) a new helper with a single call site inside f is scanned too.
+		fs.Parse(os.Args[2:])
+		p, err := load(loadOpts{dir: *repo})
+		if err != nil {
+			fmt.Println("load failed:", err)
+			os.Exit(2)
+		}
+		var names []string
+		for _, f := range p.Funcs {
+			if inMosdns(f) {
+				names = append(names, funcName(f))
+			}
+		}
+		sort.Strings(names)
+		for _, n := range names {
+			fmt.Println(n)
+		}
 	case "dumpfacts":
 		fs.Parse(os.Args[2:])
 		p, err := load(loadOpts{dir: *repo})
